@@ -34,7 +34,7 @@ META = dict(
     ),
 )
 META["explanation"] += (
-    " Added after the independent seeding rounds 2-3: " 'R8 the element-wise token-set operations (or, and, sub, or_minus, and_is_zero, negated, first_bit_set_here_and_in) compute the set operation they are named for — decided as a truth table of the stored word expression over the operand bits, independent of syntax. R2 also requires clear_excessive_bits to depend on the end of the storage. R6 also requires the builder to search the whole sibling list. R7 token_len mirrors decode_raw for special tokens (relational: a divide-by-B digit loop must run while value >= B).'
+    " Added after the independent seeding rounds 2-3: " 'R9 greedy_tokenize resumes right after the token it emitted (the resume position advances only under token_id() == Some). R8 the element-wise token-set operations (or, and, sub, or_minus, and_is_zero, negated, first_bit_set_here_and_in) compute the set operation they are named for — decided as a truth table of the stored word expression over the operand bits, independent of syntax. R2 also requires clear_excessive_bits to depend on the end of the storage. R6 also requires the builder to search the whole sibling list. R7 token_len mirrors decode_raw for special tokens (relational: a divide-by-B digit loop must run while value >= B).'
 )
 
 GPT2_RANGES = {("ge", 0x21), ("le", 0x7E), ("ge", 0xA1), ("le", 0xAC), ("ge", 0xAE), ("le", 0xFF)}
@@ -221,6 +221,43 @@ WORD_OPS = {
     "sub": (2, lambda s, o: s & (1 - o), "self &= !other"),
     "or_minus": (3, lambda s, o, m: s | (o & (1 - m)), "self |= other & !minus"),
 }
+
+
+def greedy_resume_rule(ctx, R):
+    """R9: greedy_tokenize emits the longest token found on the trie walk and must resume right after *that token*: the
+    resume position (the local whose value + 1 becomes the next start) advances only together with the recorded token,
+    i.e. every assignment to it inside the walk is dominated by the Some outcome of token_id() (the trie has inner nodes
+    that carry no token).  Otherwise bytes between the last token and the deepest node reached are silently dropped."""
+    b = ctx.try_body(TT + "::greedy_tokenize", R)
+    if b is None:
+        return
+    # resume local: L with  `next_start = L + 1`
+    cands = set()
+    for bi, si, st in b.statements():
+        if st["s"] == "assign" and st["r"]["rv"] == "bin" and st["r"]["op"] in ("Add", "AddWithOverflow"):
+            ea, pb_ = b.expr(st["r"]["a"]), st["r"]["b"]
+            la = ea[1] if ea[0] == "local" else (ea[1][0] if ea[0] == "place" and len(ea[1]) == 1 else None)
+            if isinstance(la, int) and la > b.argc and pb_.get("iv") == "1" and len([d for d in b.defs().get(la, []) if d[2] == "assign"]) >= 2:
+                cands.add(la)
+    tid = lambda e: e[0] == "discr" and e[1][0] == "call" and e[1][1].endswith("TrieNode::token_id")
+    g = []
+    for sb, e, targets, otherwise in b.switch_edges():
+        if tid(e):
+            g += [(sb, t) for v, t in targets if int(v) == 1]
+            if all(int(v) == 0 for v, _ in targets):
+                g.append((sb, otherwise))
+    if not cands or not g:
+        ctx.info(R, "greedy_tokenize: resume position / token_id() test not recognised (not judged)")
+        return
+    for L_ in sorted(cands):
+        defs = [(bi, si, p) for (bi, si, k, p) in b.defs().get(L_, []) if k == "assign"]
+        first = min(bi for bi, _, _ in defs)
+        inner = [bi for bi, si, p in defs if bi != first]
+        still = L.dominated_by_cut(b, inner, g)
+        ctx.check(bool(inner) and not still, R, "greedy_tokenize:resume-advances-only-with-a-token",
+                  "the resume position is advanced only where token_id() is Some (together with the recorded token)",
+                  "greedy_tokenize advances its resume position on trie nodes that carry no token: the text between the last token found and the "
+                  "deepest node walked is dropped (vocab {a,b,c,ab,abcd}, text \"abc\" -> [ab])", site=b.where(still[0]) if still else b.where())
 
 
 def word_ops_rule(ctx, rule):
@@ -554,6 +591,7 @@ def _rest(ctx, P):
 
     token_len_rule(ctx, "C16-R7")
     word_ops_rule(ctx, "C16-R8")
+    greedy_resume_rule(ctx, "C16-R9")
 
     # ------------------------------------------------------------------ R5 sibling builders agree
     fr, fl = ctx.body(TT + "::from"), ctx.body(TT + "::filter")
